@@ -35,9 +35,9 @@ Definition chk_module (names : list (list Z)) (nbodies : Z) (impl : list Z) : Z 
     | Some secs =>
         forallb (fun s => match fst s with
                           | 7 => match decode_export_section (snd s) with
-                                 | Some ex => names_eqb (map (fun e => fst (fst e)) ex) names | None => false end
+                                 | Some ex => names_eqb (map (fun e => fst (fst e)) ex) names && zlist_eqb (write_export_payload ex) (snd s) | None => false end
                           | 10 => match decode_code_section (snd s) with
-                                  | Some bodies => Z.of_nat (length bodies) =? nbodies | None => false end
+                                  | Some bodies => (Z.of_nat (length bodies) =? nbodies) && zlist_eqb (write_code_payload bodies) (snd s) | None => false end
                           | _ => true end) secs
         && (if 0 <? nbodies then existsb (fun s => fst s =? 10) secs else true)
         && (match names with [] => true | _ => existsb (fun s => fst s =? 7) secs end)
